@@ -235,6 +235,7 @@ func (pool *TxPool) MarkExecuted(header *types.BlockHeader, receipts types.Recei
 	}
 
 	if len(txHashList) > 0 {
+		verifGate("mark.written", txHashList[0].(common.Hash))
 		pool.remove(txHashList)
 	}
 }
@@ -256,6 +257,7 @@ func (pool *TxPool) UnMarkExecuted(block *types.Block) {
 
 	for _, tx := range txs {
 		pool.executed.Delete(tx.Hash.Bytes())
+		verifGate("unmark.deleted", tx.Hash)
 		pool.add(tx)
 	}
 }
@@ -410,6 +412,7 @@ func (pool *TxPool) add(tx *types.Transaction) (bool, error) {
 	if pool.isTransactionExisted(hash) {
 		return false, ErrExist
 	}
+	verifGate("add.checked", hash)
 	pool.received.push(tx)
 	txPoolLogger.Debugf("[pool]Add tx:%s. global nonce: %d,source:%s,nonce:%d, After add,received size:%d", tx.Hash.String(), tx.RequestId, tx.Source, tx.Nonce, pool.received.Len())
 	return true, nil
